@@ -4,6 +4,7 @@ import (
 	"fmt"
 	"go/types"
 	"math"
+	"reflect"
 	"strconv"
 	"strings"
 
@@ -566,6 +567,23 @@ func init() {
 		done(acc)
 	})
 
+	// ---- strings: generic concrete call-through for pure functions ----
+	for name, f := range map[string]any{
+		"strings.IndexByte": strings.IndexByte, "strings.TrimPrefix": strings.TrimPrefix, "strings.TrimSuffix": strings.TrimSuffix,
+		"strings.HasSuffix": strings.HasSuffix, "strings.Contains": strings.Contains, "strings.Count": strings.Count,
+		"strings.Compare": strings.Compare, "strings.EqualFold": strings.EqualFold, "strings.ReplaceAll": strings.ReplaceAll,
+		"strings.Repeat": strings.Repeat, "strings.IndexRune": strings.IndexRune, "strings.ContainsRune": strings.ContainsRune,
+		"strings.Join": strings.Join, "strings.Fields": strings.Fields, "strings.SplitN": strings.SplitN, "strings.Title": strings.Title,
+		"strings.Trim": strings.Trim, "strings.TrimLeft": strings.TrimLeft, "strings.TrimRight": strings.TrimRight,
+		"strconv.Quote": strconv.Quote, "strconv.FormatInt": strconv.FormatInt,
+	} {
+		f := f
+		name := name
+		reg(name, func(ex *Exec, g *G, fn *ssa.Function, args []Value, done func(Value)) {
+			done(ex.callNative(name, f, fn, args))
+		})
+	}
+
 	// ---- strings / strconv: concrete call-through ----
 	reg("strings.HasPrefix", func(ex *Exec, g *G, fn *ssa.Function, args []Value, done func(Value)) {
 		a, ok1 := concStr(args[0])
@@ -824,4 +842,65 @@ func (ex *Exec) atoiSym(s *smt.Term) Value {
 	v := ex.input("atoi", "int", smt.BV(64))
 	ex.ufApps["itoa"] = append(ex.ufApps["itoa"], ufApp{args: []*smt.Term{v}, res: s})
 	return TupleV{v, IfaceV{}}
+}
+
+// callNative runs a pure Go function on concrete arguments.
+func (ex *Exec) callNative(name string, f any, fn *ssa.Function, args []Value) Value {
+	rf := reflect.ValueOf(f)
+	rt := rf.Type()
+	in := make([]reflect.Value, len(args))
+	for i, a := range args {
+		pt := rt.In(i)
+		switch pt.Kind() {
+		case reflect.String:
+			s, ok := concStr(a)
+			if !ok {
+				ex.unsupported(name + " on a symbolic string")
+			}
+			in[i] = reflect.ValueOf(s)
+		case reflect.Int, reflect.Int64, reflect.Int32, reflect.Uint8:
+			v, ok := concInt(a)
+			if !ok {
+				ex.unsupported(name + " on a symbolic integer")
+			}
+			in[i] = reflect.ValueOf(v).Convert(pt)
+		case reflect.Slice:
+			sl, _ := a.(SliceV)
+			ss := make([]string, sl.Len)
+			for j := 0; j < sl.Len; j++ {
+				s, ok := concStr(ex.load(sl.Arr.Kids[sl.Off+j]))
+				if !ok {
+					ex.unsupported(name + " on symbolic strings")
+				}
+				ss[j] = s
+			}
+			in[i] = reflect.ValueOf(ss)
+		default:
+			ex.unsupported(name + ": argument kind " + pt.Kind().String())
+		}
+	}
+	out := rf.Call(in)
+	conv := func(v reflect.Value, t types.Type) Value {
+		switch v.Kind() {
+		case reflect.String:
+			return ex.strC(v.String())
+		case reflect.Bool:
+			return ex.boolC(v.Bool())
+		case reflect.Int, reflect.Int64:
+			return ex.intC(int(v.Int()))
+		case reflect.Slice:
+			return ex.strSlice(t, v.Interface().([]string))
+		}
+		ex.unsupported(name + ": result kind " + v.Kind().String())
+		return nil
+	}
+	res := fn.Signature.Results()
+	if len(out) == 1 {
+		return conv(out[0], res.At(0).Type())
+	}
+	tv := make(TupleV, len(out))
+	for i := range out {
+		tv[i] = conv(out[i], res.At(i).Type())
+	}
+	return tv
 }
